@@ -6,6 +6,7 @@ import Kap.Proofs.C10Batch
 import Kap.Proofs.C10Flat
 import Kap.Proofs.C10Sort
 import Kap.Proofs.C10FlatStream
+import Kap.Proofs.C10Eval
 set_option linter.unusedSimpArgs false
 namespace Kap.C10.Main
 open Kap.C10
